@@ -21,7 +21,7 @@ LEVEL_NOTE = 'Trusted: itertools.groupby as the definition of maximal runs; mc/r
 TECHNIQUE = 'stateless bounded-exhaustive exploration of the real operator against a maximal-runs reference model'
 
 INNER = [['tap', 'h'], ['to_list'], ['tap', 't']]
-PREDS = ['mod10', 'p_big', 'p_str', 'p_mixed', 'p_falsy']
+PREDS = ['mod10', 'p_big', 'p_str', 'p_mixed', 'p_falsy', 'p_hash', 'p_prefix']
 
 
 def bounds(tier):
@@ -46,6 +46,7 @@ def units(tier):
         out.append({'fam': 'inroll', 'w': w, 's': s, 'L': Ln})
     out.append({'fam': 'insplit', 'L': Ln})
     out.append({'fam': 'many'})
+    out.append({'fam': 'eqitems', 'L': 5 if tier == 'quick' else 6})
     d = 8 if tier == 'quick' else 10
     n = 8 if tier == 'quick' else 32
     for keys in ([0, 1], [1, 3]):
@@ -61,6 +62,10 @@ def cases(unit):
         for i, seq in enumerate(spaces.sequences([0, 1, 2], unit['L'])):
             if i % n == sh:
                 yield {'fam': 'top', 'pred': unit['pred'], 'seq': seq}
+    elif fam == 'eqitems':
+        # items that compare equal (1 == 1.0 == True, 0 == 0.0 == False) but that a pure predicate tells apart
+        for idx in spaces.sequences(range(5), unit['L']):
+            yield {'fam': 'eqitems', 'idx': idx}
     elif fam == 'many':
         for p in PREDS:
             for nk in (20, 150):
@@ -106,6 +111,12 @@ def run_case(case, acc):
         opspecs.FUNCS.setdefault('div1000', lambda x: x // 1000)
         spec = [['group_by', 'div1000', [['split', case['pred'], INNER]]]]
         exp = None
+    elif fam == 'eqitems':
+        pool = [1, 1.0, True, 0, 0.0]
+        items = [pool[i] for i in case['idx']]
+        spec = [['split', 'p_type', [['map', 'p_type_of'], ['to_list']]]]
+        opspecs.FUNCS.setdefault('p_type_of', lambda x: type(x).__name__)
+        exp = [[opspecs.F('p_type')(x) for x in run_] for run_ in runs(items, opspecs.F('p_type'))]
     elif fam == 'many':
         nk = case['nkeys']
         opspecs.FUNCS['div1000'] = lambda x: x // 1000
